@@ -30,14 +30,32 @@ def emit_all(emit):
             f"class), part {k} of {n_chunks}",
         )
 
-    # round 6: the guards of every covered entry point, read from the current source with `ast`
+    # round 6: the guards of every covered entry point, read from the current source with `ast`.
+    # round 6b: one `emit.guard` per entry point — an entry point the translator cannot read (GuardSyntaxError) gets the
+    # marker row `untranslatable` and is reported as a translator failure; the guards of the others are emitted as
+    # usual, so only the obligations about that one entry point break and the model (which names the table) still builds.
     from ..props import c20_guards
 
+    rows = []
+    for entry in c20_guards.ENTRIES:
+
+        def one(entry=entry):
+            rows.append((entry, c20_guards.flatten(c20_guards.guards(entry))))
+
+        before = len(rows)
+        guard = getattr(emit, "guard", None)
+        if guard is not None:
+            guard(one)
+        else:
+            one()
+        if len(rows) == before:
+            rows.append((entry, [("untranslatable", 0, "")]))
     emit(
         "c20Guards",
         "List (String × List (String × Int × String))",
-        [(entry, c20_guards.flatten(stmts)) for entry, stmts in c20_guards.all_guards().items()],
+        rows,
         "guards (`if cond: raise Cls`, early returns, mutations before a guard) of the covered entry points as the "
         "translator cbv/props/c20_guards.py reads them from the source, flattened in prefix notation: rows (tag, int, str); "
+        "an entry point that could not be translated holds the single row (untranslatable, 0, \"\"); "
         "syntax and semantics in CBV/Model/C20Syntax.lean",
     )
